@@ -532,23 +532,6 @@ func checkConfigProducer(w *World, r *Report, fn *ssa.Function, depth int) {
 	}
 }
 
-// errOfTuple returns the Extract of the last (error) component of a tuple-valued call.
-func (w *World) errOfTuple(c *ssa.Call) ssa.Value {
-	if c.Referrers() == nil {
-		return nil
-	}
-	tup, ok := c.Type().(*types.Tuple)
-	if !ok {
-		return nil
-	}
-	for _, ref := range *c.Referrers() {
-		if ex, ok := ref.(*ssa.Extract); ok && ex.Index == tup.Len()-1 {
-			return ex
-		}
-	}
-	return nil
-}
-
 // boolFlagDefault finds the cli.BoolFlag literal with the given name in the module and returns its default.
 func (w *World) boolFlagDefault(name string) (def bool, found bool) {
 	for _, p := range w.modulePackages() {
